@@ -78,6 +78,7 @@ type Sock struct {
 	origLen []int
 	notify  chan struct{}
 	closed  bool
+	ring     []byte  // the one slot of the zero-copy ring (see Read)
 	readErrs []error // scripted read outcomes, consumed before the queue
 	Reads   int
 }
@@ -318,9 +319,23 @@ func (s *Sock) Read() ([]byte, gopacket.CaptureInfo, error) {
 			ol := s.origLen[0]
 			s.queue = s.queue[1:]
 			s.origLen = s.origLen[1:]
+			// zero-copy semantics of the AF_PACKET ring: the returned slice is valid only until the
+			// next read.  The slot handed out by the previous read is overwritten now (same memory
+			// when the frame fits, and poisoned beyond it), so whoever kept a reference to an
+			// earlier frame sees it change.
+			if cap(s.ring) < len(d) {
+				s.ring = make([]byte, len(d), 2048+len(d))
+			}
+			full := s.ring[:cap(s.ring)]
+			for i := range full {
+				full[i] = 0xa5
+			}
+			s.ring = s.ring[:len(d)]
+			copy(s.ring, d)
+			out := s.ring
 			n.mu.Unlock()
 			simrt.Post()
-			return d, gopacket.CaptureInfo{Timestamp: time.Now(), CaptureLength: len(d), Length: ol}, nil
+			return out, gopacket.CaptureInfo{Timestamp: time.Now(), CaptureLength: len(out), Length: ol}, nil
 		}
 		if s.closed {
 			n.mu.Unlock()
